@@ -98,7 +98,19 @@ def chk_gs(c):
     with warnings.catch_warnings():
         warnings.simplefilter('ignore')
         solvers.gauss_seidel(_fmt(A, c['fmt'], rng), y, b, iterations=c['iterations'], indices=None if idx is None else list(idx), sweep=c['sweep'])
-    assert np.allclose(y, xs, rtol=1e-9, atol=1e-9), 'exact solution moved by %g' % np.max(np.abs(y - xs))
+    # for a general (possibly non-contractive) matrix the rounding error of xs is amplified by the iteration itself: the fixed-point test is
+    # therefore made against the textbook update started from the same floating-point xs, and directly against xs only for the
+    # contractive kinds
+    ref_s = xs.copy()
+    for _ in range(c['iterations']):
+        if c['sweep'] in ('forward', 'symmetric'):
+            ref_s = _ref_gs(A, ref_s, b, rows_f)
+        if c['sweep'] in ('backward', 'symmetric'):
+            ref_s = _ref_gs(A, ref_s, b, rows_f[::-1])
+    amp = max(1.0, np.max(np.abs(ref_s - xs)) / 1e-13)
+    assert np.allclose(y, ref_s, rtol=1e-11 * amp, atol=1e-11 * amp), 'sweep from the exact solution differs from the textbook update by %g' % np.max(np.abs(y - ref_s))
+    if c['kind'] in ('spd', 'dd'):
+        assert np.allclose(y, xs, rtol=1e-9, atol=1e-9), 'exact solution moved by %g' % np.max(np.abs(y - xs))
     if c['kind'] == 'spd':
         e0, e1 = x0 - xs, x - xs
         assert e1.dot(A.dot(e1)) <= e0.dot(A.dot(e0)) * (1 + 1e-10) + 1e-12, 'energy norm error increased'
